@@ -167,8 +167,19 @@ func analyseGuard(p *core.Prog, fn *ssa.Function, T *types.Named, depth string, 
 		seen[b] = true
 		for _, in := range b.Instrs {
 			if c, ok := in.(*ssa.Call); ok {
-				if callee := c.Call.StaticCallee(); callee != nil && strings.HasSuffix(core.FnPkg(callee).Path(), "/errors") {
+				if callee := c.Call.StaticCallee(); callee != nil && core.FnPkg(callee) != nil && strings.HasSuffix(core.FnPkg(callee).Path(), "/errors") {
 					gi.errCall = callee.Name()
+				} else if callee != nil && callee.Blocks != nil && core.InModule(callee) && gi.errCall == "" {
+					// a helper shared by the guards that builds the error
+					for _, hb := range callee.Blocks {
+						for _, hin := range hb.Instrs {
+							if hc, ok := hin.(*ssa.Call); ok {
+								if h2 := hc.Call.StaticCallee(); h2 != nil && core.FnPkg(h2) != nil && strings.HasSuffix(core.FnPkg(h2).Path(), "/errors") {
+									gi.errCall = h2.Name()
+								}
+							}
+						}
+					}
 				}
 			}
 			if ret, ok := in.(*ssa.Return); ok {
